@@ -239,6 +239,20 @@ def eval_s2d(desc, ctx):
         if exact:
             x, y = round(x * 8) / 8, round(y * 8) / 8
         pts.append((x, y))
+    if mkind == "mask01" and min(nr, nc) >= 2:
+        # positions hugging a fully masked side or corner of a cell: the unmasked nodes carry a tiny but
+        # non-zero weight (a particle along a coastline) and are still the only ones that count
+        e1, e2 = 2.0 ** -rng.randint(21, 40), 2.0 ** -rng.randint(11, 20)
+        cands = []
+        for jj in range(nr - 1):
+            for ii in range(nc - 1):
+                for tx, ty in ((e1, 0.375), (1 - e1, 0.625), (0.25, e1), (0.75, 1 - e1), (e2, e2), (1 - e2, e2), (e2, 1 - e2), (1 - e2, 1 - e2)):
+                    w = {(jj, ii): (1 - tx) * (1 - ty), (jj + 1, ii): (1 - tx) * ty, (jj, ii + 1): tx * (1 - ty), (jj + 1, ii + 1): tx * ty}
+                    sw = sum(v for (a, b), v in w.items() if mask[a, b] > 0)
+                    if 0 < sw < 1e-6:
+                        cands.append((ii + tx, jj + ty))
+        rng.shuffle(cands)
+        pts += cands[:2] if cands else [(rng.randrange(nc - 1) + e1, rng.randrange(nr - 1) + 1 - e1)]
     mode = 0 if (exact and mkind in ("nomask", "maskones", "maskshape")) else 1
     ints = [1, mode, nr, nc] + arr_ints(F)
     if mask is None:
@@ -661,6 +675,9 @@ def eval_e2e(desc, ctx):
     numrec, layout, with_state = desc.get("numrec", 0), desc.get("layout", "sparse"), desc.get("with_state", False)
     jmax0, imax0 = rng.randint(10, 16), rng.randint(10, 16)
     lon, lat, dx = GRIDS[gt](jmax0, imax0, rng)
+    # longitude convention of the grid file: -180..180, or the continuous 0..360 spelling (Pacific-style
+    # grids whose lon_rho exceeds 180); a release longitude is whatever the grid's own lon field says
+    lon = lon + rng.choice([0.0, 0.0, 192.0, 256.0, 360.0])
     i0, i1, j0, j1 = legal_subgrid(rng, imax0, jmax0, minw=6)
     d = ctx.subdir(f"c16_e2e_{desc['seed']}")
     dt, nsteps = 600, 6
